@@ -389,6 +389,8 @@ def c10_monitor(ctx, tr, ix):
     cfgk = tr.cfg
     rp = replay_of(tr)
     t1 = cfgk["accounts_mod"].get("stock_t1", True)
+    # the property is stated "with position validation on": each account type's invariants are checked when its own switch is on
+    val_on = {"STOCK": cfgk["accounts_mod"].get("validate_stock_position", True), "FUTURE": cfgk["accounts_mod"].get("validate_future_position", True)}
     n = 0
     start_qty = {}      # (id) -> quantity at start of day (stocks)
     sold_today = collections.Counter()
@@ -408,11 +410,13 @@ def c10_monitor(ctx, tr, ix):
             if t["book"] in ix.stock and t["side"] == "SELL" and e["order"] is not None:
                 sold_today[t["book"]] += t["qty"]
                 s = ix.stock[t["book"]]
-                if t1 and s.get("tplus", 1) >= 1 and sold_today[t["book"]] > start_qty.get(t["book"], 0):
+                if t1 and val_on["STOCK"] and s.get("tplus", 1) >= 1 and sold_today[t["book"]] > start_qty.get(t["book"], 0):
                     ctx.witness("C10.2", {"kind": "t_plus_one"}, "%s: sold %s of %s today, held %s at the start of the day (T+1)" % (when, sold_today[t["book"]], t["book"], start_qty.get(t["book"], 0)), rp)
         if acc is None:
             continue
         for t, a in acc.items():
+            if not val_on.get(t, True):
+                continue
             for h in a["holdings"]:
                 for side in ("long", "short"):
                     p = h[side]
